@@ -131,7 +131,17 @@ def gen_pairs(rng, mode, n_schemas, extra_opts=None):
         inh = gen.Inhabit(rng, S, cbor)
         root = S.rules[0][2]
         first = None
-        for j in range(8):
+        for j in range(9):
+            if j == 8:
+                # a map inhabitant reduced to its first k entries (keys of later members absent: nothing left for a table to claim)
+                if first is None or first[0] != "map" or len(first[1]) < 2:
+                    break
+                v = ("map", first[1][:rng.randrange(0, len(first[1]))])
+                if (not cbor and not ast.is_json_value(v)) or (cbor and not ast.is_cbor_value(v)):
+                    continue
+                pairs.append((S, v))
+                classes.append("near-miss-prefix")
+                continue
             if j >= 4:
                 # targeted near-misses: the empty container, a single deletion from the first inhabitant, a value of another
                 # class at one position (the key kept), one entry / element added
